@@ -1115,7 +1115,20 @@ impl<'a> World<'a> {
             BTreeSet::new()
         };
         let mut tolerated_listed = false;
-        for m in aggregate_mismatches(&p1, self.cfg.max_ancestors as u64) {
+        let mismatches = aggregate_mismatches(&p1, self.cfg.max_ancestors as u64);
+        // a dump that shows a listed aggregate finding is stale as a whole: the other mismatches of the
+        // same dump are not attributed (the listed root causes - entries added above their pooled
+        // descendants, the cut link - show on several related entries at once)
+        let dump_has_listed = !self.strict
+            && mismatches.iter().any(|m| {
+                let tainted = match m.side {
+                    Side::Anc => self.taint_anc.contains(&m.id),
+                    Side::Limit => self.taint_limit.contains(&m.id),
+                    Side::Desc => self.taint_desc.contains(&m.id),
+                };
+                !tainted && (self.known_sigs)(&classify(m, p0, &p1, kind, &committed, &self.transients, &expired))
+            });
+        for m in mismatches {
             let tainted = match m.side {
                 Side::Anc => self.taint_anc.contains(&m.id),
                 Side::Limit => self.taint_limit.contains(&m.id),
@@ -1144,6 +1157,10 @@ impl<'a> World<'a> {
                 // entries through the saturating add / sub of later operations: what a later dump
                 // shows cannot be attributed any more, so the history ends here (counted)
                 tolerated_listed = true;
+                continue;
+            }
+            if dump_has_listed {
+                st.label("aggregates:not-attributed:same-dump-as-a-listed-finding");
                 continue;
             }
             return Err(Violation::new(sig, detail));
